@@ -884,6 +884,12 @@ int32 parseClientKeyExchange(ssl_t *ssl, int32 hsLen, unsigned char **cp,
             }
             c += pubKeyLen;
             /* This is the DH pub key now */
+            if (end - c < 2)
+            {
+                ssl->err = SSL_ALERT_DECODE_ERROR;
+                psTraceErrr("Invalid ClientKeyExchange length\n");
+                return MATRIXSSL_ERROR;
+            }
             pubKeyLen = *c << 8; c++;
             pubKeyLen += *c; c++;
             if ((uint32) (end - c) < pubKeyLen)
@@ -2132,6 +2138,12 @@ int32 parseServerKeyExchange(ssl_t *ssl,
         Memcpy(ssl->sec.dhP, c, ssl->sec.dhPLen);
         c += ssl->sec.dhPLen;
 
+        if (end - c < 2)
+        {
+            ssl->err = SSL_ALERT_DECODE_ERROR;
+            psTraceErrr("Invalid ServerKeyExchange message\n");
+            return MATRIXSSL_ERROR;
+        }
         ssl->sec.dhGLen = *c << 8; c++;
         ssl->sec.dhGLen |= *c; c++;
         if ((uint32) (end - c) < ssl->sec.dhGLen)
@@ -2148,6 +2160,12 @@ int32 parseServerKeyExchange(ssl_t *ssl,
         Memcpy(ssl->sec.dhG, c, ssl->sec.dhGLen);
         c += ssl->sec.dhGLen;
 
+        if (end - c < 2)
+        {
+            ssl->err = SSL_ALERT_DECODE_ERROR;
+            psTraceErrr("Invalid ServerKeyExchange message\n");
+            return MATRIXSSL_ERROR;
+        }
         pubDhLen = *c << 8; c++;
         pubDhLen |= *c; c++;
 
@@ -2609,7 +2627,7 @@ int32 parseCertificateRequest(ssl_t *ssl,
         while (len > 2)
         {
             certLen = GETSHORT(c); c += 2;
-            if (certLen == 0 || (end - c) < certLen || certLen > len)
+            if (certLen == 0 || (end - c) < certLen || certLen > len - 2)
             {
                 ssl->err = SSL_ALERT_DECODE_ERROR;
                 psTraceErrr("Invalid CertificateRequest message " \
@@ -3000,6 +3018,12 @@ SKIP_CERT_CHAIN_INIT:
     {
         int32 certFlags = 0;
 
+        if (end - c < 3)
+        {
+            ssl->err = SSL_ALERT_DECODE_ERROR;
+            psTraceErrr("Invalid Certificate message\n");
+            return MATRIXSSL_ERROR;
+        }
         certLen = *c << 16; c++;
         certLen |= *c << 8; c++;
         certLen |= *c; c++;
